@@ -97,6 +97,12 @@ def run_ops(case, real_connection_made=False):
                 cur.append(['eventcb', lid, tohex(data)])
                 b = lbehs.get(str(lid), ['plain'])
                 if b[0] == 'raises':
+                    # exceptions of different shapes: with a message, without any argument, not an Exception subclass
+                    # of RuntimeError
+                    if lid % 3 == 1:
+                        raise KeyError()
+                    if lid % 3 == 2:
+                        assert False
                     raise RuntimeError('listener %d fails' % lid)
                 if b[0] == 'removes':
                     for (n, l, c) in b[1]:
